@@ -66,6 +66,8 @@ def make(rng, name):
             full = scopes[x]["prefix"] + full
             x = scopes[x]["parent"]
         sc["handler"] = {"fn": "h%d" % s, "path": "%s/%s/r%d" % (full, name, s), "local": "/%s/r%d" % (name, s), "wants": wants}
+        if rng.random() < 0.6:
+            sc["handler"]["mw"] = {"fn": "m%d" % s, "kind": rng.choice(["pre", "post"]), "wants": rng.choice(wants)}
     if not any(sc["handler"] for sc in scopes):
         return None
     U = name.upper()
@@ -78,9 +80,22 @@ def make(rng, name):
                 sig = "pub fn %s<T>() -> G<T>" % f
             else:
                 sig = "pub fn %s() -> G<%s>" % (f, r["produces"])
-            items.append("#[pavex::request_scoped(id = \"%s_%s\")]\n%s { let id = fresh(); log(format!(\"ctor %s.%s {} : \", id)); "
-                         "G { id, by: \"%s\", p: std::marker::PhantomData } }" % (U, f.upper(), sig, name, f, f))
+            # the trailing token names the instantiation (a generic constructor runs once per instantiation and request)
+            tyname = "std::any::type_name::<T>()" if r["produces"] == "*" else "\"%s\"" % r["produces"]
+            items.append("#[pavex::request_scoped(id = \"%s_%s\")]\n%s { let id = fresh(); log(format!(\"ctor %s.%s {} : {}\", id, %s)); "
+                         "G { id, by: \"%s\", p: std::marker::PhantomData } }" % (U, f.upper(), sig, name, f, tyname, f))
         h = sc["handler"]
+        if h and h.get("mw"):
+            # a middleware of the handler's own blueprint that borrows one of the instantiations the handler borrows too:
+            # one request-scoped value, built once, seen by both (seeded change C03-4 specialised the generic constructor
+            # once per requesting scope, so each of them got its own)
+            mw = h["mw"]
+            if mw["kind"] == "pre":
+                items.append("#[pavex::pre_process(id = \"%s_%s\")]\npub fn %s(a0: &G<%s>) -> Processing { log(format!(\"pre %s.%s : {}/{}\", a0.by, a0.id)); Processing::Continue }"
+                             % (U, mw["fn"].upper(), mw["fn"], mw["wants"], name, mw["fn"]))
+            else:
+                items.append("#[pavex::post_process(id = \"%s_%s\")]\npub fn %s(r: Response, a0: &G<%s>) -> Response { log(format!(\"post %s.%s : {}/{}\", a0.by, a0.id)); r }"
+                             % (U, mw["fn"].upper(), mw["fn"], mw["wants"], name, mw["fn"]))
         if h:
             ps = ", ".join("a%d: &G<%s>" % (k, p) for k, p in enumerate(h["wants"]))
             fmt = " ".join("{}/{}" for _ in h["wants"])
@@ -99,6 +114,11 @@ def make(rng, name):
             if sc["parent"] == s:
                 units.append(["nest", {"prefix": sc["prefix"], "ops": ops_of(c)}])
         rng.shuffle(units)
+        mw = (scopes[s]["handler"] or {}).get("mw")
+        if mw:
+            # the middleware wraps this blueprint's own route only: nested blueprints first, then the middleware, then the route
+            route = [u for u in units if u[0] == "raw"]
+            units = [u for u in units if u[0] != "raw"] + [["raw", "{bp}.%s(%s_%s);" % ("pre_process" if mw["kind"] == "pre" else "post_process", U, mw["fn"].upper()), {"mw": mw["fn"]}]] + route
         if rng.random() < 0.3 and ops:
             # a registration after the routes / nested blueprints of the same blueprint: registration order inside
             # a blueprint does not matter for constructors
